@@ -515,3 +515,10 @@ func (w *World) RemoveSP(entityID string) {
 	delete(w.sps, entityID)
 	w.mu.Unlock()
 }
+
+// UserByLogin returns the user registered under a login name.
+func (w *World) UserByLogin(login string) *User {
+	w.mu.Lock()
+	defer w.mu.Unlock()
+	return w.logins[login]
+}
